@@ -159,6 +159,45 @@ def evaluate(case):
         dl = np.asarray(lib(B + ['hilbert_distance', 'form:list'], arr.hilbert_distance, [float(v) for v in case['total_bounds']], p))
         if dl.tolist() != d.tolist():
             fails.append((B + ['form-dependence', form], f'{form}: {d.tolist()} list: {dl.tolist()}'))
+    # histories: containers derived from a parent whose bounds, total bounds and distances have already been computed
+    # hold the distances of a fresh container with the same elements (own coordinates and (total_bounds, p) only)
+    dv = case.get('derive')
+    if dv is not None and n:
+        ser0 = sp.GeoSeries(arr, index=list(range(n)))
+        lib(B + ['warm'], lambda: (arr.bounds, ser0.bounds, ser0.total_bounds))
+        if not any(v != v for v in arr.total_bounds):
+            lib(B + ['warm'], lambda: (ser0.hilbert_distance(p=p), arr.hilbert_distance(p=p)))
+        tk = [(-1 if i < 0 else i % n) for i in dv['take']]
+        if tk:
+            sub = lib(B + ['take-fill'], lambda: arr.take(np.array(tk, dtype=np.int64), allow_fill=True))
+            fresh = model.build_array(kind, [None if i < 0 else els[i] for i in tk], subtype)
+            a1 = np.asarray(lib(B + ['hilbert_distance'], sub.hilbert_distance, base_obj(), p))
+            a2 = np.asarray(lib(B + ['hilbert_distance'], fresh.hilbert_distance, base_obj(), p))
+            if a1.tolist() != a2.tolist():
+                fails.append((B + ['history-dependence', 'take-with-fill'], f'take({tk}, allow_fill) of a parent with computed bounds: {a1.tolist()} vs fresh array {a2.tolist()} tb={tb}'))
+            labels.append('derived:take-with-fill' + ('(-1)' if -1 in tk else ''))
+        a, b = sorted(i % (n + 1) for i in dv['slice'])
+        mask = [bool((dv['mask'] >> i) & 1) for i in range(n)]
+        derived = [('iloc', lambda: ser0.iloc[a:b], list(range(a, b))),
+                   ('mask', lambda: ser0[np.array(mask)], [i for i in range(n) if mask[i]]),
+                   ('head', lambda: ser0.head(b), list(range(min(b, n)))),
+                   ('reindex', lambda: ser0.reindex([(i if i >= 0 else n + 5) for i in tk]), tk)]
+        for name, mk, pos in derived:
+            sub_els = [None if i < 0 else els[i] for i in pos]
+            fresh = model.build_array(kind, sub_els, subtype)
+            if not len(sub_els) or all(model.is_inert(kind, e) for e in model.to_canonical(fresh)) or any(v != v for v in fresh.total_bounds):
+                continue
+            der = lib(B + ['derive', name], mk)
+            a1 = np.asarray(lib(B + ['GeoSeries.hilbert_distance', 'default-bounds'], lambda: der.hilbert_distance(p=p))).tolist()
+            a2 = np.asarray(lib(B + ['GeoSeries.hilbert_distance', 'default-bounds'], lambda: sp.GeoSeries(fresh).hilbert_distance(p=p))).tolist()
+            if a1 != a2:
+                fails.append((B + ['history-dependence', 'default-bounds', name], f'{name} {pos} of a series whose total_bounds were computed: {a1} vs fresh series {a2}'))
+            tb1 = tuple(float(v) for v in lib(B + ['total_bounds'], lambda: der.total_bounds))
+            if not model.same_row(tb1, tuple(float(v) for v in fresh.total_bounds)):
+                fails.append((B + ['history-dependence', 'total_bounds', name], f'{name} {pos}: total_bounds {tb1} vs fresh {tuple(fresh.total_bounds)}'))
+            labels.append('derived:' + name)
+            if len(sub_els) < n:
+                nt = True
     idx = [f'k{i}' for i in range(n)][::-1]
     ser = lib(B + ['GeoSeries.hilbert_distance'], lambda: sp.GeoSeries(arr, index=idx).hilbert_distance(total_bounds=base_obj(), p=p))
     if list(ser.index) != idx or ser.values.tolist() != d.tolist():
@@ -233,7 +272,8 @@ def _exact_case(draw):
     forms = FORMS if all(float(v) == int(v) for v in tb) else ['list', 'tuple', 'ndarray']
     return {'kind': kind, 'subtype': subtype, 'p': p, 'elements': els, 'units': units, 'total_bounds': tb,
             'form': draw(st.sampled_from(forms)), 'reback': draw(st.sampled_from(model.REBACKINGS)),
-            'select': draw(st.one_of(st.none(), st.lists(st.integers(0, 20), max_size=6)))}
+            'select': draw(st.one_of(st.none(), st.lists(st.integers(0, 20), max_size=6))),
+            'derive': draw(st.one_of(st.none(), st.fixed_dictionaries({'take': st.lists(st.integers(-1, 20), max_size=6), 'slice': st.tuples(st.integers(0, 20), st.integers(0, 20)).map(list), 'mask': st.integers(0, 2 ** 20 - 1)})))}
 
 
 @st.composite
@@ -261,7 +301,8 @@ def _free_case(draw):
         tb = [max(-2.0 ** 40, min(2.0 ** 40, v)) for v in tb]
     case.update({'p': p, 'total_bounds': tb, 'units': None,
                  'form': draw(st.sampled_from(FORMS if tb and all(float(v) == int(v) for v in tb) else ['list', 'tuple', 'ndarray'])),
-                 'select': draw(st.one_of(st.none(), st.lists(st.integers(0, 20), max_size=6)))})
+                 'select': draw(st.one_of(st.none(), st.lists(st.integers(0, 20), max_size=6))),
+                 'derive': draw(st.one_of(st.none(), st.fixed_dictionaries({'take': st.lists(st.integers(-1, 20), max_size=6), 'slice': st.tuples(st.integers(0, 20), st.integers(0, 20)).map(list), 'mask': st.integers(0, 2 ** 20 - 1)})))})
     return case
 
 
